@@ -140,6 +140,20 @@ def gen(chk, mpmath, rng):
                        ex.eq(mp.mnorm(Bm, 1), ex.mx(*[ex.add(*[ex.ab(Be[r][c]) for r in range(n)]) for c in range(n)])),
                        ex.eq(mp.mnorm(Bm, mp.inf), ex.norminf(Be))]
                 yield ex.allj(*js), {"key": "elementwise", "B": B, "C": C, "k": k, "p": p, "what": "matrix +, -, *, **, transpose or a norm differs from its elementwise definition"}
+                # non-square shapes (tall, wide, vectors): products, transposes and the three matrix norms
+                r_, c_ = rng.randint(1, 5), rng.randint(1, 5)
+                T = [[rng.randint(-20, 20) for _ in range(c_)] for _ in range(r_)]
+                Tm = mp.matrix(T); Te = [[ex.Z(v) for v in row] for row in T]
+                js2 = [ex.eq(x, y) for r1, r2 in zip(ex.mat_of(Tm.T), ex.transpose(Te)) for x, y in zip(r1, r2)]
+                js2 += [ex.eq(x, y) for r1, r2 in zip(ex.mat_of(Tm.T * Tm), ex.matmul(ex.transpose(Te), Te)) for x, y in zip(r1, r2)]
+                try:
+                    ninf = mp.mnorm(Tm, mp.inf); n1 = mp.mnorm(Tm, 1)
+                    js2 += [ex.eq(ninf, ex.norminf(Te)), ex.eq(n1, ex.mx(*[ex.add(*[ex.ab(Te[a][b]) for a in range(r_)]) for b in range(c_)]))]
+                    nF = mp.mnorm(Tm, "F")
+                    js2.append(ex.le(ex.ab(ex.sub(ex.sq(nF), ex.add(*[ex.sq(v) for row in Te for v in row]))), ex.mul(ex.pow2(6 - p), ex.add(*[ex.sq(v) for row in Te for v in row], 1))))
+                except Exception as e_:
+                    js2.append({"j": "false"})
+                yield ex.allj(*js2), {"key": "elementwise/non-square", "T": T, "p": p, "what": "transpose, product or a matrix norm of a non-square matrix differs from its definition (or raises)"}
         except (ZeroDivisionError, ValueError, TypeError, AssertionError):
             yield None
 
